@@ -60,6 +60,10 @@ def nodeval(w, n, asg):
         if not (isinstance(v, int) and 0 <= v < (1 << wd)):
             raise Malformed("BV constant %r does not fit %r bits" % (v, wd))
         return v
+    if op == "ARRAY_VALUE":
+        vals_ = [nodeval(w, a, asg) for a in args]
+        idx_sort = sort_conc(w.sort_of_tyobj(p), asg)
+        return refsem.ArrVal(vals_[0], dict(zip(vals_[1::2], vals_[2::2])), idx_sort)
     if op in ("FORALL", "EXISTS"):
         names = []
         doms = []
